@@ -428,8 +428,9 @@ func c19Producers(r *Run, db *SiteDB) {
 			continue
 		}
 		maps := false
-		for _, s := range db.ByFunc[fi] {
-			if s.Callee == "fsimpl/qids.Mapper.QIDFor" && strings.HasSuffix(recvStr(newResolver(r.L, fi.Pkg.TypesInfo, fi.Decl), s.Call), ".m") {
+		// in the method itself or in a private helper it calls (q.mapQIDs(qids))
+		for _, s := range append(append([]*Site{}, db.ByFunc[fi]...), db.Deep[fi]...) {
+			if s.Call != nil && s.Callee == "fsimpl/qids.Mapper.QIDFor" && strings.HasSuffix(s.recvStr(), ".m") {
 				maps = true
 			}
 		}
